@@ -142,32 +142,61 @@ ENC = ["csvpath/managers/results/results_manager.py:ResultsManager.start_run/add
     pre=["{LO} <= ks <= {HI} and {LO} <= kf <= {FHI} and {LO} <= t <= {HI} and {LO} <= ke <= {HI}"],
     post="_ == ''",
     bound="group of 4 members (one with unmatched-mode keep, one with a scan ending before the file, one with run-mode no-run) over a 5-record file with quoted delimiter and embedded newline; stop "
-    "line ks, fail line kf, match threshold t, error line ke symbolic LO..HI (shards fix some of them); run method per shard; read "
+    "line ks, fail line kf, match threshold t, error line ke symbolic LO..HI (shards fix some of them); run method per shard; optionally (shard) an earlier run of the same group by another instance in the same clock second; read "
     "back: run manifest status/all_valid/all_completed/error_count, member meta/vars/errors/manifest, vars.json = variables, "
     "errors.json = errors, printouts.txt = printouts, data.csv/unmatched.csv parse to the expected lines, fingerprints = sha256 of "
     "the bytes on disk and cover every file",
     outside="symbolic cell text and variable values through json/csv (C boundary): the data side is this one fixture; groups of "
     "more than 2; the symbolic ints are realised when the archive is written (solver-driven walk over the box)",
     encodes=ENC,
-    tiers={"quick": {"timeout": 1800, "K": {"LO": -1, "HI": 5, "FHI": 2}, "shards": product(method=["collect_paths", "collect_by_line", "fast_forward_paths", "next_by_line"], t=[0], ke=[-1, 2])},
+    tiers={"quick": {"timeout": 1800, "K": {"LO": -1, "HI": 5, "FHI": 2}, "shards": product(method=["collect_paths", "collect_by_line", "fast_forward_paths", "next_by_line"], t=[0], ke=[-1, 2])
+                     + product(method=["collect_paths", "collect_by_line"], t=[0], ke=[2], kf=[1], prior=[True])},
            "thorough": {"timeout": 6000, "K": {"LO": -1, "HI": 5, "FHI": 5},
-                        "shards": product(method=["collect_paths", "fast_forward_paths", "next_paths", "collect_by_line", "fast_forward_by_line", "next_by_line"], t=[-1, 1], ke=[-1, 2])}},
+                        "shards": product(method=["collect_paths", "fast_forward_paths", "next_paths", "collect_by_line", "fast_forward_by_line", "next_by_line"], t=[-1, 1], ke=[-1, 2])
+                        + product(method=["collect_paths", "next_paths", "collect_by_line"], t=[0], ke=[2], prior=[True])}},
 )
-def archive_truthful(method: str, ks: int, kf: int, t: int, ke: int) -> str:
+def archive_truthful(method: str, ks: int, kf: int, t: int, ke: int, prior: bool = False) -> str:
+    import datetime
     import json
+    import csvpath.csvpaths as _cps
+
+    class _Clock:
+        """a frozen clock: an earlier run of the same group (prior) starts in the same second"""
+
+        @classmethod
+        def now(cls, tz=None):
+            return datetime.datetime(2031, 5, 6, 13, 0, 0, tzinfo=datetime.timezone.utc)
 
     kit.HOLD.update(symks=ks, symkf=kf, symt=t, symke=ke)
+    saved = _cps.datetime
     with NoTracing():
+        _cps.datetime = _Clock
         root, cs = kitpaths.env({"g": MEMBERS}, policy="collect, print")
-    _run(cs, method)
+    try:
+        earlier = {}
+        if prior:
+            with NoTracing():
+                cs0 = kitpaths.new_instance()
+            _run(cs0, method)
+            with NoTracing():
+                earlier = kitpaths.tree_digest("archive/g")
+        _run(cs, method)
+    finally:
+        with NoTracing():
+            _cps.datetime = saved
     out = []
     m0, m1, um1 = expected_lines(ks, t, ke)  # traced: realises the symbolic ints along this path
     with NoTracing():
-        runs = sorted(os.listdir("archive/g"))
-        if len(runs) != 1:
+        runs = sorted(d for d in os.listdir("archive/g") if os.path.isdir(os.path.join("archive/g", d)))
+        if len(runs) != (2 if prior else 1):
             out.append(f"{len(runs)} run directories")
-        run_dir = os.path.join("archive/g", runs[0])
         results = cs.results_manager.get_named_results("g")
+        run_dir = results[0].run_dir if results else os.path.join("archive/g", runs[-1])
+        now = kitpaths.tree_digest("archive/g")
+        for f, h in earlier.items():
+            if f.count(os.sep) >= 1 and now.get(f) != h:
+                out.append(f"the earlier run's file {f} changed")
+                break
         man = json.loads(_read(os.path.join(run_dir, "manifest.json")))
         if man.get("status") != "complete":
             out.append("run manifest status is not complete")
